@@ -93,6 +93,110 @@ impl TemporalCalendarIndex {
 
     }
 
+    pub fn zones_for_ts(&self, ts: u64) -> (r: RoaringBitmap)
+     ensures forall|z: u32| has(mview(self.hour), slot(floor_to(ts as int, 3600)), z) ==> bits(r).contains(z), // OBL:C08.calendar_index.zones_for_ts.returns_every_zone_listed_under_the_hour_of_ts
+{
+        // Prefer hour, then day
+        let hb = Self::bucket_id(ts, TimeGranularity::Hour);
+        if let Some(bm) = self.hour.get(&hb) {
+            return bm.clone();
+        }
+        let db = Self::bucket_id(ts, TimeGranularity::Day);
+        if let Some(bm) = self.day.get(&db) {
+            return bm.clone();
+        }
+        RoaringBitmap::new()
+    }
+
+    pub fn zones_for_range(&self, min_ts: u64, max_ts: u64) -> (r: RoaringBitmap)
+     ensures min_ts <= max_ts ==> forall|b: u32, z: u32| has(mview(self.day), b, z) && slot(floor_to(min_ts as int, 86_400)) <= b <= slot(floor_to(max_ts as int, 86_400)) ==> bits(r).contains(z), // OBL:C08.calendar_index.zones_for_range.returns_every_zone_of_every_day_slot_between_the_bounds
+{
+        if max_ts < min_ts {
+            return RoaringBitmap::new();
+        }
+        // Union only existing day buckets between bounds
+        let start_b = Self::bucket_id(min_ts, TimeGranularity::Day);
+        let end_b = Self::bucket_id(max_ts, TimeGranularity::Day);
+        let mut out = RoaringBitmap::new();
+         proof { axiom_entries(&self.day); }
+        for (bucket, bm) in it: &self.day 
+             invariant it.history@ =~= entries(&self.day).take(it.index@), start_b == slot(floor_to(min_ts as int, 86_400)), end_b == slot(floor_to(max_ts as int, 86_400)),
+                 forall|i: int| 0 <= i < it.index@ && *(#[trigger] entries(&self.day)[i]).0 >= start_b && *entries(&self.day)[i].0 <= end_b ==> bits(*entries(&self.day)[i].1).subset_of(bits(out)),
+{
+             let ghost n = it.index@; let ghost out0 = out;
+             assert((bucket, bm) == entries(&self.day)[n]);
+
+            if *bucket >= start_b && *bucket <= end_b {
+                out |= bm;
+            }
+        
+             proof {
+                 axiom_rb_union(out0, *bm);
+                 assert(bits(out0).subset_of(bits(out)));
+                 assert forall|i: int| 0 <= i < n + 1 && *(#[trigger] entries(&self.day)[i]).0 >= start_b && *entries(&self.day)[i].0 <= end_b implies bits(*entries(&self.day)[i].1).subset_of(bits(out)) by {
+                     if i < n { assert(bits(*entries(&self.day)[i].1).subset_of(bits(out0))); }
+                 }
+             }
+}
+        out
+    }
+
+    pub fn zones_for_ge(&self, min_ts: u64) -> (r: RoaringBitmap)
+     ensures forall|b: u32, z: u32| has(mview(self.day), b, z) && b >= slot(floor_to(min_ts as int, 86_400)) ==> bits(r).contains(z), // OBL:C08.calendar_index.zones_for_ge.returns_every_zone_of_every_day_slot_from_the_bound_on
+{
+        let start_b = Self::bucket_id(min_ts, TimeGranularity::Day);
+        let mut out = RoaringBitmap::new();
+         proof { axiom_entries(&self.day); }
+        for (bucket, bm) in it: &self.day 
+             invariant it.history@ =~= entries(&self.day).take(it.index@), start_b == slot(floor_to(min_ts as int, 86_400)),
+                 forall|i: int| 0 <= i < it.index@ && *(#[trigger] entries(&self.day)[i]).0 >= start_b ==> bits(*entries(&self.day)[i].1).subset_of(bits(out)),
+{
+             let ghost n = it.index@; let ghost out0 = out;
+             assert((bucket, bm) == entries(&self.day)[n]);
+
+            if *bucket >= start_b {
+                out |= bm;
+            }
+        
+             proof {
+                 axiom_rb_union(out0, *bm);
+                 assert(bits(out0).subset_of(bits(out)));
+                 assert forall|i: int| 0 <= i < n + 1 && *(#[trigger] entries(&self.day)[i]).0 >= start_b implies bits(*entries(&self.day)[i].1).subset_of(bits(out)) by {
+                     if i < n { assert(bits(*entries(&self.day)[i].1).subset_of(bits(out0))); }
+                 }
+             }
+}
+        out
+    }
+
+    pub fn zones_for_le(&self, max_ts: u64) -> (r: RoaringBitmap)
+     ensures forall|b: u32, z: u32| has(mview(self.day), b, z) && b <= slot(floor_to(max_ts as int, 86_400)) ==> bits(r).contains(z), // OBL:C08.calendar_index.zones_for_le.returns_every_zone_of_every_day_slot_up_to_the_bound
+{
+        let end_b = Self::bucket_id(max_ts, TimeGranularity::Day);
+        let mut out = RoaringBitmap::new();
+         proof { axiom_entries(&self.day); }
+        for (bucket, bm) in it: &self.day 
+             invariant it.history@ =~= entries(&self.day).take(it.index@), end_b == slot(floor_to(max_ts as int, 86_400)),
+                 forall|i: int| 0 <= i < it.index@ && *(#[trigger] entries(&self.day)[i]).0 <= end_b ==> bits(*entries(&self.day)[i].1).subset_of(bits(out)),
+{
+             let ghost n = it.index@; let ghost out0 = out;
+             assert((bucket, bm) == entries(&self.day)[n]);
+
+            if *bucket <= end_b {
+                out |= bm;
+            }
+        
+             proof {
+                 axiom_rb_union(out0, *bm);
+                 assert(bits(out0).subset_of(bits(out)));
+                 assert forall|i: int| 0 <= i < n + 1 && *(#[trigger] entries(&self.day)[i]).0 <= end_b implies bits(*entries(&self.day)[i].1).subset_of(bits(out)) by {
+                     if i < n { assert(bits(*entries(&self.day)[i].1).subset_of(bits(out0))); }
+                 }
+             }
+}
+        out
+    }
+
 }
 
 // ---- spec functions and lemmas from the contract file ----
@@ -130,7 +234,64 @@ impl<'a> Entry<'a, u32, RoaringBitmap> {
                 e_after(self) == e_before(self).insert(e_key(self), *final(r)),
     { unimplemented!() }
 }
+#[verifier::external_body]
+#[verifier::reject_recursive_types(K)]
+#[verifier::reject_recursive_types(V)]
+pub struct Iter<'a, K, V> { _p: core::marker::PhantomData<&'a (K, V)> }
+pub uninterp spec fn entries<K, V>(m: &HashMap<K, V>) -> Seq<(&K, &V)>;
+impl<'a, K, V> Iterator for Iter<'a, K, V> {
+    type Item = (&'a K, &'a V);
+    #[verifier::external_body]
+    fn next(&mut self) -> Option<(&'a K, &'a V)> { unimplemented!() }
+}
+impl<'a, K, V> vstd::std_specs::iter::IteratorSpecImpl for Iter<'a, K, V> {
+    open spec fn obeys_prophetic_iter_laws(&self) -> bool { true }
+    #[verifier::prophetic]
+    uninterp spec fn remaining(&self) -> Seq<Self::Item>;
+    #[verifier::prophetic]
+    uninterp spec fn will_return_none(&self) -> bool;
+    uninterp spec fn decrease(&self) -> Option<nat>;
+    uninterp spec fn peek(&self, index: int) -> Option<Self::Item>;
+}
+impl<'a, K, V> IntoIterator for &'a HashMap<K, V> {
+    type Item = (&'a K, &'a V);
+    type IntoIter = Iter<'a, K, V>;
+    #[verifier::external_body]
+    fn into_iter(self) -> (r: Iter<'a, K, V>)
+        ensures vstd::std_specs::iter::IteratorSpec::decrease(&r) is Some, vstd::std_specs::iter::IteratorSpec::remaining(&r) == entries(self)
+    { unimplemented!() }
+}
+/// the listing the iteration yields is exactly the map: every key once, with its value
+pub axiom fn axiom_entries(m: &HashMap<u32, RoaringBitmap>)
+    ensures
+        forall|i: int| 0 <= i < entries(m).len() ==> mview(*m).contains_key(*(#[trigger] entries(m)[i]).0) && mview(*m)[*entries(m)[i].0] == *entries(m)[i].1,
+        forall|k: u32| mview(*m).contains_key(k) ==> exists|i: int| 0 <= i < entries(m).len() && *(#[trigger] entries(m)[i]).0 == k;
+impl HashMap<u32, RoaringBitmap> {
+    #[verifier::external_body]
+    pub fn get(&self, k: &u32) -> (r: Option<&RoaringBitmap>)
+        ensures r is Some == mview(*self).contains_key(*k), r is Some ==> *(r->Some_0) == mview(*self)[*k]
+    { unimplemented!() }
+}
+impl Clone for RoaringBitmap {
+    #[verifier::external_body]
+    fn clone(&self) -> (r: Self) ensures bits(r) == bits(*self) { unimplemented!() }
+}
+pub uninterp spec fn rb_union(a: RoaringBitmap, b: RoaringBitmap) -> RoaringBitmap;
+pub axiom fn axiom_rb_union(a: RoaringBitmap, b: RoaringBitmap)
+    ensures bits(rb_union(a, b)) == bits(a).union(bits(b));
+impl vstd::std_specs::ops::BitOrAssignSpecImpl<&RoaringBitmap> for RoaringBitmap {
+    open spec fn obeys_bitor_assign_spec() -> bool { true }
+    open spec fn bitor_assign_req(&self, rhs: &RoaringBitmap) -> bool { true }
+    open spec fn bitor_assign_spec(&self, rhs: &RoaringBitmap) -> &RoaringBitmap { &rb_union(*self, *rhs) }
+}
+impl core::ops::BitOrAssign<&RoaringBitmap> for RoaringBitmap {
+    #[verifier::external_body]
+    fn bitor_assign(&mut self, rhs: &RoaringBitmap)
+    { unimplemented!() }
+}
 impl RoaringBitmap {
+    #[verifier::external_body]
+    pub fn new() -> (r: Self) ensures bits(r) == Set::<u32>::empty() { unimplemented!() }
     #[verifier::external_body]
     pub fn insert(&mut self, z: u32) -> (r: bool) ensures bits(*final(self)) == bits(*old(self)).insert(z) { unimplemented!() }
 }
@@ -147,6 +308,26 @@ pub open spec fn floor_to(ts: int, w: int) -> int { (ts / w) * w }
 pub open spec fn bid(start: u64) -> u32 { (start & 0xffff_ffffu64) as u32 }
 pub open spec fn slot(k: int) -> u32 { bid(k as u64) }
 
+pub proof fn lemma_slot_id(k: u64)
+    requires k < 0x1_0000_0000u64
+    ensures bid(k) == k as u32, bid(k) as u64 == k
+{
+    assert((k & 0xffff_ffffu64) == k) by (bit_vector) requires k < 0x1_0000_0000u64;
+}
+/// composition for one zone covering [min_ts, max_ts] (before the u32 slot wraps in 2106): a `>= q` / `> q` probe with q <= max_ts and a
+/// `<= q` / `< q` probe with q >= min_ts find a day slot that lists the zone - the slot the contracts of zones_for_ge / zones_for_le read
+pub proof fn lemma_range_probes_find_the_zone(day: Map<u32, RoaringBitmap>, z: u32, min_ts: int, max_ts: int, q: int)
+    requires 0 <= min_ts <= max_ts < 0x1_0000_0000, 0 <= q < 0x1_0000_0000,
+        forall|ts: int| min_ts <= ts <= max_ts ==> has(day, slot(#[trigger] floor_to(ts, 86_400)), z),
+    ensures
+        q <= max_ts ==> has(day, slot(floor_to(max_ts, 86_400)), z) && slot(floor_to(max_ts, 86_400)) >= slot(floor_to(q, 86_400)),
+        q >= min_ts ==> has(day, slot(floor_to(min_ts, 86_400)), z) && slot(floor_to(min_ts, 86_400)) <= slot(floor_to(q, 86_400)),
+{
+    lemma_floor_props(max_ts, 86_400); lemma_floor_props(min_ts, 86_400); lemma_floor_props(q, 86_400);
+    lemma_slot_id(floor_to(max_ts, 86_400) as u64); lemma_slot_id(floor_to(min_ts, 86_400) as u64); lemma_slot_id(floor_to(q, 86_400) as u64);
+    if q <= max_ts { lemma_mono(q, max_ts, 86_400); }
+    if q >= min_ts { lemma_mono(min_ts, q, 86_400); }
+}
 /// every instant of [lo, hi] floors to an aligned value between floor(lo) and floor(hi)
 pub proof fn lemma_cover(lo: int, hi: int, w: int)
     requires 0 <= lo, w > 0
